@@ -52,7 +52,14 @@ def cases(tier, seed):
 
 def materialise(case):
     if case["kind"] == "assembly":
-        return _embedded.materialise_assembly(case)
+        m = _embedded.materialise_assembly(case)
+        # own stream: some inputs carry a feature located on another record (segmented GenBank entries); the origin is then
+        # often put exactly on the first letter of the structure's first group, where the library's rotation is by zero
+        rr = gen.rng_for(case["seed"], PROP, "remote", case["enzyme"], case["i"])
+        for s in [m["vector"]] + m["modules"]:
+            if rr.random() < 0.25:
+                s["features"] = s["features"] + [{"type": "misc_feature", "parts": [[3, 9, 1, "J00194.1", None]], "quals": {"uid": [s["id"] + ".remote"]}}]
+        return m
     return case
 
 
